@@ -127,7 +127,39 @@ def lock_analysis(db, fn):
         t = top_term(e)
         if t is not None and sensitive(t):
             out.append((e, t, before.get((e.block, e.idx), frozenset())))
+        elif t is not None and t.get('k') == 'call' and t.get('cls') == fn.cls and t.get('short') not in UNLOCKED_BY_CONTRACT \
+                and t.get('short') not in ('get_allocator', 'lock') and strip_this(t.get('recv')) and t.get('key') != fn.key and _depth[0] < 3:
+            # delegation to another member of the same storage (an extracted helper): fine if the lock is held here, or if every
+            # access inside the helper is under a lock of its own
+            callee = db.fns.get(t.get('key'))
+            held = before.get((e.block, e.idx), frozenset())
+            if callee is not None and not held:
+                _depth[0] += 1
+                try:
+                    csens, clocks = lock_analysis(db, callee)
+                finally:
+                    _depth[0] -= 1
+                if csens and all(h for _, _, h in csens):
+                    lockvars.setdefault('helper:' + callee.short, {'name': 'lock taken inside ' + callee.short, 't': ''})
+                    held = frozenset(['helper:' + callee.short])
+                elif not csens:
+                    continue
+            if callee is not None:
+                out.append((e, t, held))
     return out, lockvars
+
+
+_depth = [0]
+
+
+def strip_this(recv):
+    """is the receiver the storage object itself (implicit or explicit this)?"""
+    if recv is None:
+        return True
+    r = recv
+    while isinstance(r, dict) and r.get('k') in ('cast',) or (isinstance(r, dict) and r.get('k') == 'un' and r.get('op') == '*'):
+        r = r.get('e')
+    return isinstance(r, dict) and r.get('k') == 'this'
 
 
 def check_lock(run, db):
